@@ -30,8 +30,41 @@ def drive(workdir, profile, seed, traces, steps, name, ops=None, teardown=True):
     return out, st
 
 
+CHUNK_BYTES = int(os.environ.get("VERIF_CHUNK_MB", "120")) * 1024 * 1024   # TLC holds the whole deserialised file in memory: larger files are validated in pieces
+
+
 def validate(workdir, tracefile, kf_enabled, timeout=3000):
-    """Run YKTrace over one trace file. Returns (fails, kfs, nlines) with fails = [(check, line)], kfs = [(id, line)]."""
+    """Run YKTrace over one trace file (in pieces cut at trace boundaries when it is large).
+    Returns (fails, kfs, nlines) with fails = [(check, line)], kfs = [(id, line)], line numbers of the whole file."""
+    if os.path.getsize(tracefile) <= CHUNK_BYTES:
+        return _validate_one(workdir, tracefile, kf_enabled, timeout)
+    fails, kfs, total = [], [], 0
+    part, size, start, n, idx = [], 0, 0, 0, 0
+
+    def flush():
+        nonlocal part, size, start, idx, total, fails, kfs
+        if not part:
+            return
+        pf = "%s.part%d" % (tracefile, idx)
+        with open(pf, "w") as f:
+            f.writelines(part)
+        fl, kf, nl = _validate_one(workdir, pf, kf_enabled, timeout)
+        fails += [(c, ln + start) for c, ln in fl]
+        kfs += [(c, ln + start) for c, ln in kf]
+        total += nl
+        os.remove(pf)
+        idx, start, part, size = idx + 1, start + len(part), [], 0
+    with open(tracefile) as f:
+        for line in f:
+            if '"op":"reset"' in line and size > CHUNK_BYTES:
+                flush()
+            part.append(line)
+            size += len(line)
+    flush()
+    return fails, kfs, total
+
+
+def _validate_one(workdir, tracefile, kf_enabled, timeout=3000):
     base = os.path.basename(tracefile)
     cfg = os.path.join(workdir, "YKTrace-" + base + ".cfg")
     kfset = "{" + ", ".join('"%s"' % k for k in sorted(kf_enabled)) + "}"
